@@ -524,7 +524,14 @@ def rule_model_rendering(prog, rep):
         return fs.hook
 
     one = [small[0], small[1]] + list(small[-2:])
-    for label, model in (("one-atom", one), ("large", big)):
+    tiny = []
+    for k, (rad, x0) in enumerate(((1.23456, 0.0), (2.00012, 5.5), (0.77773, -3.25), (1.50003, 100.0), (3.14159, 7.0), (1.11115, 0.0))):
+        m_, _ = pqr_model(prog, (("ATOM", 500 + k, "C", "ONE", None, 1, None, x0, 2.0 * k, -1.0, 0.0, 1.0),))
+        # keep only the added atom and give it the radius (written with four decimals by the writer)
+        line = [ln for ln, w in m_ if w is not None and w["serial"] == 500 + k][0]
+        tiny.append((f"single atom, radius {rad}", [(line[:-7] + f"{rad:7.4f}"[:7] + "\n" if not line.endswith("\n") else line[:-8] + f"{rad:7.4f}" + "\n",
+                                                     {"type": "ATOM", "serial": 500 + k, "x": x0, "y": 2.0 * k, "z": -1.0, "charge": 0.0, "radius": round(rad, 4)})]))
+    for label, model in [("one-atom", one), ("large", big)] + tiny:
         atoms = [w for _, w in model if w is not None]
         try:
             pqr_lines = written_file(prog, [ln for ln, w in model if w is not None or not ln.startswith("REMARK")], False, False)
@@ -533,12 +540,24 @@ def rule_model_rendering(prog, rep):
         # 1. the route --apbs-input takes, for output names with the usual suffix, another suffix, two dots, and none
         sizes = _sizing(prog, pqr_lines)
         failed = False
+        if label.startswith("single atom"):
+            for method in ("mg-auto", "mg-para"):
+                run = ObjRunner(prog, "inputgen.py", extra_hook=file_hook({}))
+                try:
+                    size = _sizing(prog, pqr_lines, runner=run)
+                    text = run.call(run.new("Input", "out/model.pqr", size, method, False, 0, potdx=True), "__str__")
+                except Flow as fl:
+                    r.bad(f"{label}|render|{method}", f"rendering stops with {fl.value}", where)
+                    continue
+                _judge_input(r, f"{label}|render|{method}", text, "model.pqr", size, atoms, where, method=method)
+            continue
         for pqrpath in (("out/model.pqr", "out/complex.v2.PQR", "out/charged.txt", "result") if label == "one-atom" else ("out/model.pqr",)):
             other = ["ATOM      1  C   XXX     1     900.000 900.000 900.000  0.0000 1.0000\n"]
             files = {pqrpath: list(pqr_lines), "out/other.pqr": other, PurePosixPath(pqrpath).stem + ".pqr": other}
             files[pqrpath] = list(pqr_lines)
             run = ObjRunner(prog, "io.py", extra_hook=file_hook(files))
             try:
+                run.call_function("io.py", "dump_apbs", "out/other.pqr", "out/other.in")  # an earlier run of the same process, on another structure
                 run.call_function("io.py", "dump_apbs", pqrpath, "out/model.in")
             except Flow as fl:
                 r.bad(f"{label}|dump_apbs|{pqrpath}", f"dump_apbs stops with {fl.value} on the {label} model written as {pqrpath}", where)
@@ -595,6 +614,11 @@ def _judge_input(r, key, text, pqrname, size, atoms, where, method=None):
                 problems.append(f"{tag} {m} differs from the computed {attr} {[round(x, 4) for x in size[attr]]}")
     if meth and meth[0] in ("mg-auto", "mg-para") and not (_re.search(r"^\s*cglen ", text, _re.M) and _re.search(r"^\s*fglen ", text, _re.M)):
         problems.append("no cglen/fglen lines for a focusing method")
+    cg = _re.findall(r"^\s*cglen (\S+) (\S+) (\S+)\s*$", text, _re.M)
+    fg = _re.findall(r"^\s*fglen (\S+) (\S+) (\S+)\s*$", text, _re.M)
+    for c_, f_ in zip(cg, fg):
+        if any(float(b) > float(a) for a, b in zip(c_, f_)):
+            problems.append(f"as printed the fine box {f_} is larger than the coarse box {c_} (the two lengths are written with different precision)")
     if meth and meth[0] == "mg-para":
         pd = _re.findall(r"^\s*pdime (\d+) (\d+) (\d+)\s*$", text, _re.M)
         if not pd or any(tuple(map(int, m)) != tuple(int(x) for x in size["proc_grid"]) for m in pd):
